@@ -3,7 +3,8 @@
 //! logic instead of dying in input validation. Shared by the fuzz targets (harness/fuzz) and by
 //! `tuv decode-fuzz`, which turns a crash artifact back into a replayable case.
 use crate::props::common::{Table, ALPHABETS};
-use crate::props::{c03, c12, c16};
+use crate::gen;
+use crate::props::{c03, c06, c10, c11, c12, c16, c18};
 use arbitrary::Unstructured;
 
 fn pick<'a, T: Copy>(u: &mut Unstructured, v: &'a [T]) -> Option<T> {
@@ -121,5 +122,149 @@ pub fn c16(data: &[u8]) -> Option<c16::Case> {
         ctx,
         kind: (flags >> 1) % 3,
         graphemes: flags & 1 != 0,
+    })
+}
+
+fn fuzz_text(u: &mut Unstructured, max: usize, stable_only: bool) -> Option<String> {
+    let n = u.int_in_range(0..=max).ok()?;
+    let mut s = String::new();
+    for _ in 0..n {
+        let k: u8 = u.arbitrary().ok()?;
+        let pool: &[&str] = if stable_only {
+            match k % 4 {
+                0 | 1 => gen::CLOSED_POOL,
+                _ => gen::WS_FRAGS,
+            }
+        } else {
+            match k % 8 {
+                0 | 1 => gen::ASCII_FRAGS,
+                2 => gen::MULTI_FRAGS,
+                3 | 4 => gen::WS_FRAGS,
+                5 => gen::COMBINING_FRAGS,
+                6 => gen::HAZARD_FRAGS,
+                _ => gen::NFKC_FRAGS,
+            }
+        };
+        if k >= 250 && !stable_only {
+            let c: char = u.arbitrary().ok()?;
+            s.push(c);
+        } else {
+            s.push_str(pick(u, pool)?);
+        }
+    }
+    Some(s)
+}
+
+pub fn c11(data: &[u8]) -> Option<c11::Case> {
+    let mut u = Unstructured::new(data);
+    let flags: u8 = u.arbitrary().ok()?;
+    let graphemes = flags & 1 != 0;
+    // in grapheme mode mostly segmentation-stable texts (the asserting domain)
+    let s = fuzz_text(&mut u, 32, graphemes && flags & 6 != 0)?;
+    Some(c11::Case { s, graphemes })
+}
+
+pub fn c10(data: &[u8]) -> Option<c10::Case> {
+    let mut u = Unstructured::new(data);
+    let flags: u8 = u.arbitrary().ok()?;
+    let graphemes = flags & 1 != 0;
+    let sub = match (flags >> 1) % 3 {
+        0 => {
+            let n = u.int_in_range(0..=16usize).ok()?;
+            let mut chars = vec![];
+            let mut from = vec![];
+            let mut to = vec![];
+            for _ in 0..n {
+                let c = if graphemes {
+                    pick(&mut u, gen::CLOSED_POOL)?.to_string()
+                } else {
+                    let k: u8 = u.arbitrary().ok()?;
+                    let f = match k % 4 {
+                        0 | 1 => pick(&mut u, gen::ASCII_FRAGS)?,
+                        2 => pick(&mut u, gen::MULTI_FRAGS)?,
+                        _ => pick(&mut u, gen::HAZARD_FRAGS)?,
+                    };
+                    let ch = f.chars().next()?;
+                    if ch.is_whitespace() {
+                        return None;
+                    }
+                    ch.to_string()
+                };
+                chars.push(c);
+                let b: u8 = u.arbitrary().ok()?;
+                from.push(b & 1 != 0);
+                to.push(b & 2 != 0);
+            }
+            c10::Sub::Inverse { chars, from, to }
+        }
+        1 => {
+            let s = fuzz_text(&mut u, 24, false)?;
+            let n = gen::clusters(&s, graphemes).len();
+            let delta: i8 = match u.int_in_range(0..=9u8).ok()? {
+                0 => 1,
+                1 => -1,
+                _ => 0,
+            };
+            let want = (n as isize + delta as isize).max(0) as usize;
+            let mut ops = vec![];
+            for _ in 0..want {
+                ops.push(u.int_in_range(0..=2u8).unwrap_or(0));
+            }
+            c10::Sub::Repair { s, ops, delta }
+        }
+        _ => c10::Sub::Total { a: fuzz_text(&mut u, 12, false)?, b: fuzz_text(&mut u, 12, false)? },
+    };
+    Some(c10::Case { sub, graphemes })
+}
+
+pub fn c18(data: &[u8]) -> Option<c18::Case> {
+    let mut u = Unstructured::new(data);
+    let flags: u8 = u.arbitrary().ok()?;
+    let mut seqs = vec![];
+    for _ in 0..2 {
+        let n = u.int_in_range(0..=12usize).ok()?;
+        let mut w = vec![];
+        for _ in 0..n {
+            w.push(pick(&mut u, c18::WORDS)?.to_string());
+        }
+        seqs.push(w);
+    }
+    let b = seqs.pop()?;
+    let a = seqs.pop()?;
+    let sep = |u: &mut Unstructured| -> Option<Vec<String>> {
+        let n = u.int_in_range(1..=3usize).ok()?;
+        (0..n).map(|_| pick(u, c18::SEPS).map(str::to_string)).collect()
+    };
+    Some(c18::Case { a, b, sep_a: sep(&mut u)?, sep_b: sep(&mut u)?, ignore_case: flags & 1 != 0 })
+}
+
+pub fn c06(data: &[u8]) -> Option<c06::Case> {
+    let mut u = Unstructured::new(data);
+    let flags: u8 = u.arbitrary().ok()?;
+    let limit = u.int_in_range(0..=20usize).ok()?;
+    let prefetch = u.int_in_range(0..=5usize).ok()?;
+    let seed: u8 = u.arbitrary().ok()?;
+    let n = u.int_in_range(0..=48usize).ok()?;
+    let mut sizes = vec![];
+    for _ in 0..n {
+        let b: u8 = u.arbitrary().ok()?;
+        sizes.push(match b % 8 {
+            0 => 0,
+            1 | 2 => 1,
+            3 => (b / 8) as usize % 9,
+            4 => limit.max(1),
+            5 => limit.max(1) + 1,
+            6 => limit.max(1).saturating_sub(1),
+            _ => 3 * limit.max(1),
+        });
+    }
+    Some(c06::Case {
+        sizes,
+        sort: flags & 1 != 0,
+        shuffle: flags & 2 != 0,
+        prefetch,
+        limit,
+        padded: flags & 4 != 0,
+        seed: Some((seed % 8) as u64),
     })
 }
